@@ -105,6 +105,13 @@ func generatedBatchModels(r *rand.Rand) []*batchModel {
 		bytes: buildModel([]*onnx.NodeProto{nd("Conv", []string{"x", "k", "kb"}, []string{"a"}, aIs("strides", 1, 2), aIs("pads", 1, 0, 0, 1)), nd("Relu", []string{"a"}, []string{"b"}),
 			nd("Flatten", []string{"b"}, []string{"c"}, aI("axis", 1)), nd("Gemm", []string{"c", "w"}, []string{"y"})},
 			map[string]tensor.Tensor{"k": f32T(r, 1, 3, 2, 2, 3), "kb": f32T(r, 1, 3), "w": f32T(r, 1, 3*5*3, 2)}, []string{"x"}, []int{4}, []string{"y"})})
+	for _, ap := range []string{"SAME_UPPER", "SAME_LOWER"} {
+		ap := ap
+		add(&batchModel{name: "conv2d-autopad-" + ap + "-strides23", inputs: []string{"x"}, inAxis: []int{0}, outputs: []string{"y"}, outAxis: []int{0},
+			mk: one(func(n int) []int { return []int{n, 2, 5, 7} }, 1),
+			bytes: buildModel([]*onnx.NodeProto{nd("Conv", []string{"x", "k"}, []string{"y"}, aIs("strides", 2, 3), &onnx.AttributeProto{Name: "auto_pad", S: []byte(ap), Type: onnx.AttributeProto_STRING})},
+				map[string]tensor.Tensor{"k": f32T(r, 1, 2, 2, 3, 2)}, []string{"x"}, []int{4}, []string{"y"})})
+	}
 	add(&batchModel{name: "conv1d", inputs: []string{"x"}, inAxis: []int{0}, outputs: []string{"y"}, outAxis: []int{0},
 		mk: one(func(n int) []int { return []int{n, 2, 7} }, 1),
 		bytes: buildModel([]*onnx.NodeProto{nd("Conv", []string{"x", "k"}, []string{"y"}, aIs("dilations", 2))},
